@@ -120,7 +120,9 @@ func c06(c *Ctx) {
 					if !le.Held(s.F)[e.From][mu] {
 						return false
 					}
-					return edgeImplies(e, func(cnd ast.Expr, pol int) bool { return pol < 0 && fieldMethodCall(info, cnd, fStopped, "Load") != nil })
+					return edgeImplies(e, func(cnd ast.Expr, pol int) bool {
+						return pol < 0 && fieldMethodCall(info, cnd, fStopped, "Load") != nil
+					})
 				})
 				c.Check(okT, "R2", "sdk/log|"+s.F.Name+"|send on input after !stopped.Load() inside the critical section", ix.at(s),
 					"stopped is tested under inputMu before the send", "the stopped test is missing or outside inputMu: Shutdown can close input between the test and the send: "+whyT)
